@@ -3,7 +3,7 @@
    (any function giving the ancestor list of a class), every list of links and every pair of classes. *)
 From Coq Require Import List Bool ZArith String Arith Permutation.
 Import ListNotations.
-Require Import MV.Model.LinkSel MV.Spec.LinkRule MV.Proofs.LinkSelP.
+Require Import MV.Model.LinkSel MV.Spec.LinkRule MV.Proofs.LinkSelP MV.Model.LinkAttach MV.Proofs.LinkAttachP.
 Open Scope Z_scope.
 
 (* FULL STATEMENT (refuted on the faithful model, see C18_rule_refuted):
@@ -54,6 +54,149 @@ Print Assumptions C18_validate_spec.
 Theorem C18_validate_order_independent : forall ls ls', Permutation ls ls' -> validate_rejects ls = validate_rejects ls'.
 Proof. exact validate_perm_invariant_l. Qed.
 Print Assumptions C18_validate_order_independent.
+
+(* ---------- links attached to features (Model/LinkAttach.v) ----------
+   Links reach the planner in two ways: through the API argument `links=` (validated by LinkValidator in Engine.__init__)
+   and attached to features (`Feature(..., link=...)`, merged into the engine's set AFTER that validation).  For the
+   latter the only guard is the resolve-time back-stop ResolveLinkValidator.validate_no_conflicting_join_types, run on
+   the links that were matched for a join of the request (the keys of link_trekker.data). *)
+
+(* the engine's link set = API links + attached links, as a set (Link.__eq__ is structural equality of the model's record) *)
+Theorem C18_eff_links : forall g a l, In l (eff_links g a) <-> In l g \/ In l a.
+Proof. exact eff_links_in_l. Qed.
+Print Assumptions C18_eff_links.
+
+(* which pairs of classes are looked up: two different parent positions of the child *)
+Theorem C18_ordered_pairs : forall ps a b,
+  In (a, b) (ordered_pairs ps) <-> exists rest, Permutation ps (a :: rest) /\ In b rest.
+Proof. exact ordered_pairs_spec_l. Qed.
+Print Assumptions C18_ordered_pairs.
+
+(* which links reach link_trekker.data; a request `req` is given by the list of parent classes of each of its children *)
+Theorem C18_used_links : forall mro eff req l,
+  In l (used_links mro eff req) <->
+  exists ps a b, In ps req /\ In (a, b) (ordered_pairs ps) /\ In l (find_matching mro eff a b).
+Proof. exact used_links_in. Qed.
+Print Assumptions C18_used_links.
+
+(* the back-stop raises iff two keys have the same ORDERED (left class, right class) pair and different join types ... *)
+Theorem C18_backstop_spec : forall keys,
+  backstop keys = true <-> exists i j, In i keys /\ In j keys /\ lfg i = lfg j /\ rfg i = rfg j /\ jt i <> jt j.
+Proof. exact backstop_spec_l. Qed.
+Print Assumptions C18_backstop_spec.
+
+(* ... i.e. it decides exactly the second rule of LinkValidator on the used links ... *)
+Theorem C18_backstop_is_conflicting_jt : forall keys, backstop keys = any_pair conflicting_jt keys.
+Proof. exact backstop_any_pair_l. Qed.
+Print Assumptions C18_backstop_is_conflicting_jt.
+
+(* ... for every iteration order of the dict, and whether or not a link occurs under several framework pairs *)
+Theorem C18_backstop_order_independent : forall keys keys',
+  (forall x, In x keys <-> In x keys') -> backstop keys = backstop keys'.
+Proof. exact backstop_set_l. Qed.
+Print Assumptions C18_backstop_order_independent.
+
+Theorem C18_backstop_perm : forall keys keys', Permutation keys keys' -> backstop keys = backstop keys'.
+Proof. exact backstop_perm_l. Qed.
+Print Assumptions C18_backstop_perm.
+
+(* prepare refuses a link set exactly when the API part is contradictory or two USED links conflict in their join type *)
+Theorem C18_prepare_rejects : forall mro g a ps,
+  rejected (link_verdict mro g a ps) = true <->
+  validate_rejects g = true \/
+  exists i j, In i (used_links mro (eff_links g a) ps) /\ In j (used_links mro (eff_links g a) ps) /\
+              lfg i = lfg j /\ rfg i = rfg j /\ jt i <> jt j.
+Proof. exact link_verdict_rejected_l. Qed.
+Print Assumptions C18_prepare_rejects.
+
+(* the verdict (and its class) does not depend on the iteration order of the link sets, of the parents or of the dict *)
+Theorem C18_prepare_order_independent : forall mro g g' a ps ps' eff keys,
+  Permutation g g' -> req_le ps ps' -> req_le ps' ps ->
+  (forall x, In x eff <-> In x g \/ In x a) ->
+  (forall x, In x keys <-> In x (used_links mro eff ps')) ->
+  verdict_of g' keys = link_verdict mro g a ps.
+Proof. exact link_verdict_order_l. Qed.
+Print Assumptions C18_prepare_order_independent.
+
+(* FULL STATEMENT (refuted on the faithful model, see the three C18_attached_*_refuted):
+     forall mro g a ps, validate_rejects (g ++ a) = true -> rejected (link_verdict mro g a ps) = true
+   ("a contradictory link set is rejected before execution, whichever way its links arrive").
+   PROVED: (1) all contradicting links given through the API: always; (2) two join types for one ordered pair: as soon as
+   one of the two links is used for a join of the request (exact or polymorphic), whichever way the two arrived; (3) the
+   full statement outside the domain kf_attached, which consists only of pairs with an attached link that are double
+   joins, right-join constraints, or join-type conflicts between two unused links (C18_kf_attached_narrow). *)
+Theorem C18_global_rejected : forall mro g a ps, validate_rejects g = true -> rejected (link_verdict mro g a ps) = true.
+Proof. exact global_rejected_l. Qed.
+Print Assumptions C18_global_rejected.
+
+Theorem C18_conflicting_used_rejected : forall mro g a ps i j,
+  In i (g ++ a) -> In j (g ++ a) -> lfg i = lfg j -> rfg i = rfg j -> jt i <> jt j ->
+  In i (used_links mro (eff_links g a) ps) ->
+  rejected (link_verdict mro g a ps) = true.
+Proof. exact conflicting_used_rejected_l. Qed.
+Print Assumptions C18_conflicting_used_rejected.
+
+Theorem C18_conflicting_exact_rejected : forall mro g a req ps i j,
+  In i (g ++ a) -> In j (g ++ a) -> lfg i = lfg j -> rfg i = rfg j -> jt i <> jt j ->
+  In ps req -> In (lfg i, rfg i) (ordered_pairs ps) ->
+  rejected (link_verdict mro g a req) = true.
+Proof. exact conflicting_exact_rejected_l. Qed.
+Print Assumptions C18_conflicting_exact_rejected.
+
+Theorem C18_contradictory_rejected_partial : forall mro g a ps,
+  validate_rejects (g ++ a) = true -> kf_attached mro g a ps = false -> rejected (link_verdict mro g a ps) = true.
+Proof. exact contradictory_rejected_partial_l. Qed.
+Print Assumptions C18_contradictory_rejected_partial.
+
+Theorem C18_kf_attached_passes : forall mro g a ps, kf_attached mro g a ps = true -> link_verdict mro g a ps = Passed.
+Proof. exact kf_attached_passes_l. Qed.
+Print Assumptions C18_kf_attached_passes.
+
+Theorem C18_kf_attached_narrow : forall mro g a ps, kf_attached mro g a ps = true ->
+  exists i j, In i (g ++ a) /\ In j (g ++ a) /\ ~ (In i g /\ In j g) /\
+    (double_join i j = true \/ right_conflict i j = true \/
+     (conflicting_jt i j = true /\ ~ In i (used_links mro (eff_links g a) ps) /\ ~ In j (used_links mro (eff_links g a) ps))).
+Proof. exact kf_attached_narrow_l. Qed.
+Print Assumptions C18_kf_attached_narrow.
+
+(* witnesses (known finding C18-attached-links-unvalidated): contradictory sets nothing refuses *)
+Theorem C18_attached_double_join_refuted :
+  validate_rejects ([mk LEFT 0 1] ++ [mk INNER 1 0]) = true /\
+  link_verdict flat_mro [mk LEFT 0 1] [mk INNER 1 0] [[0; 1]]%nat = Passed /\
+  used_links flat_mro (eff_links [mk LEFT 0 1] [mk INNER 1 0]) [[0; 1]]%nat = [mk LEFT 0 1; mk INNER 1 0].
+Proof. exact attached_double_join_refuted_l. Qed.
+Print Assumptions C18_attached_double_join_refuted.
+
+Theorem C18_attached_right_constraint_refuted :
+  validate_rejects ([mk RIGHT 0 1] ++ [mk LEFT 0 2]) = true /\
+  link_verdict flat_mro [mk RIGHT 0 1] [mk LEFT 0 2] [[0; 1; 2]]%nat = Passed /\
+  used_links flat_mro (eff_links [mk RIGHT 0 1] [mk LEFT 0 2]) [[0; 1; 2]]%nat = [mk RIGHT 0 1; mk LEFT 0 2].
+Proof. exact attached_right_constraint_refuted_l. Qed.
+Print Assumptions C18_attached_right_constraint_refuted.
+
+Theorem C18_attached_unused_conflict_refuted :
+  validate_rejects ([mk INNER 0 2] ++ [mk LEFT 0 2]) = true /\
+  link_verdict flat_mro [mk INNER 0 2] [mk LEFT 0 2] [[0; 1]]%nat = Passed /\
+  used_links flat_mro (eff_links [mk INNER 0 2] [mk LEFT 0 2]) [[0; 1]]%nat = [].
+Proof. exact attached_unused_conflict_refuted_l. Qed.
+Print Assumptions C18_attached_unused_conflict_refuted.
+
+(* non-vacuity: LEFT(1,0) through the API + INNER(1,0) attached, the request joins 1 and 0: refused by the back-stop,
+   also when the links name the bases (3, 4) of the requested classes; the same two links both through the API: validator;
+   in either key order; a symmetric join written from the other side is another ordered pair (not refused) *)
+Definition ex_mro2 := mro_of [(0, [0; 4]); (1, [1; 3])]%nat.
+Example C18_attached_examples :
+  link_verdict flat_mro [mk LEFT 1 0] [mk INNER 1 0] [[1; 0]]%nat = RejBackstop /\
+  link_verdict flat_mro [] [mk OUTER 1 0; mk LEFT 1 0] [[0; 1]]%nat = RejBackstop /\
+  link_verdict ex_mro2 [mk LEFT 3 4] [mk INNER 3 4] [[1; 0]]%nat = RejBackstop /\
+  link_verdict flat_mro [mk LEFT 1 0] [mk INNER 1 0] [[1; 2]; [5; 1; 2; 0]]%nat = RejBackstop /\
+  link_verdict flat_mro [mk LEFT 1 0] [mk INNER 1 0] []%nat = Passed /\
+  link_verdict flat_mro [mk LEFT 1 0; mk INNER 1 0] [] [[1; 0]]%nat = RejValidator /\
+  backstop [mk LEFT 1 0; mk INNER 1 0] = true /\ backstop [mk INNER 1 0; mk LEFT 1 0] = true /\
+  backstop [mk INNER 1 0; mk OUTER 0 1] = false /\
+  kf_attached flat_mro [mk LEFT 1 0] [mk INNER 1 0] [[1; 0]]%nat = false /\
+  kf_attached flat_mro [mk LEFT 0 1] [mk INNER 1 0] [[0; 1]]%nat = true.
+Proof. vm_compute. repeat split. Qed.
 
 (* index support follows the prefix rule, for tuples of any length *)
 Theorem C18_index_prefix : forall a b, is_a_part_of a b = true <-> exists s, b = a ++ s.
